@@ -38,7 +38,8 @@ EXPLANATION = (
     'tag-only nullable members, null for nullable). Decides these structural parts, not the '
     'value-level "accepts exactly".'
     ' R8: the decoder validates against the generated validators, so generate_validator_constructor must forward every IR constructor parameter, wrap Nullable on every return, and generate_func_call must drop a keyword only for None (shared with C08-R3).'
-    ' R9 (imported from C08-R6): the decoder builds unions through Union.__init__, whose type-only shortcut must stay limited to Struct/Union validators.')
+    ' R9 (imported from C08-R6): the decoder builds unions through Union.__init__, whose type-only shortcut must stay limited to Struct/Union validators.'
+    ' R11 (imported from C08-R10): condition drift of the runtime refusal sites.')
 ASSUMPTIONS = [
     'CPython ast of the working tree is the program; structured control flow',
     'implicit exceptions are modelled only for: container operations on the untrusted document, '
@@ -676,7 +677,9 @@ def run(pm, ctx):
               'bv.Struct.has_default is the negation of _has_required_fields', hd.loc,
               msg='bv.Struct.has_default changed: %s' % returns_text(hd.node),
               key='C06-R10|%s' % hd.qualname)
-
+    ctx.import_rules(pm, 'C08', {'C08-R10'}, 'C06-R11',
+                     'the decoder and the validators refuse under the conditions confirmed on the '
+                     'reference tree (shared with C08-R10)')
 
 def _construct(site):
     n = site.node
